@@ -49,6 +49,13 @@ def model_shape(res):
 def check(ctx, cname, cfg, seqs):
     cmds = [[30, T.enc_cfg(cfg), [T.enc_event(e) for e in evs]] for evs in seqs]
     mres = ctx.model.run(cmds) if ctx.build.model_ok else None
+    if mres is not None:
+        rres = ctx.model.run([[31] + c[1:] for c in cmds])
+        for k, r in enumerate(rres):
+            if r != 1:
+                ctx.disagree("Model.Build.feed ~ Spec.BuildSpec.spec_run (conclusion of build_refines, evaluated)",
+                             {"config": cname, "events": seqs[k]}, None, r)
+                break
     for k, evs in enumerate(seqs):
         soup = T.build(evs, cfg)
         shape = T.impl_build_shape(soup)
